@@ -1,4 +1,4 @@
-import common, modelgen
+import common, modelgen, c12
 
 
 def main():
@@ -8,3 +8,5 @@ def main():
     print("setup: eqlog compiler built")
     b, infos = modelgen.build_models("k", modelgen.load_corpus("k"))
     print("setup: models harness built,", sum(1 for i in infos if i["ok"]), "theories")
+    c12.build_tools()
+    print("setup: injector and stand-in rustc built")
